@@ -17,6 +17,8 @@ mod c11;
 mod bsdrv;
 mod c12;
 mod c13;
+mod c19;
+mod c20;
 
 use common::Tier;
 
@@ -45,6 +47,8 @@ fn main() {
         "C11" => c11::run(tier),
         "C12" => c12::run(tier),
         "C13" => c13::run(tier),
+        "C19" => c19::run(tier),
+        "C20" => c20::run(tier),
         "C15" => c15::run(tier),
         "C05" => c05::run(tier),
         "C07" => c07_c08_c18::run_c07(tier),
